@@ -131,7 +131,48 @@ func dumpState(p *model.DecisionMakingParams) interface{} {
 		"notConsidered": dumpAlts(p.NotConsideredAlternatives),
 		"params":        params,
 		"weightSets":    weightSets(params),
+		"levelParams":   levelParams(params),
 	}
+}
+
+func ciGet(m J, key string) (interface{}, bool) {
+	for k, v := range m {
+		if strings.EqualFold(k, key) {
+			return v, true
+		}
+	}
+	return nil, false
+}
+
+// levelParams normalises the `params` of the two threshold heuristics, which are a raw request map
+// before any bias and a typed iterator struct after a listener rebuilt them (same content, other
+// key case): {kind:"thresholds", thresholds:[...]} | {kind:"coef", coefficient, minValue, maxValue}.
+func levelParams(params interface{}) interface{} {
+	m, ok := params.(J)
+	if !ok {
+		return J{"kind": "none"}
+	}
+	pv, ok := ciGet(m, "Params")
+	if !ok {
+		return J{"kind": "none"}
+	}
+	pm, ok := pv.(J)
+	if !ok {
+		return J{"kind": "none"}
+	}
+	if t, ok := ciGet(pm, "thresholds"); ok {
+		if t == nil {
+			t = []interface{}{}
+		}
+		return J{"kind": "thresholds", "thresholds": t}
+	}
+	out := J{"kind": "coef", "coefficient": 0.0, "minValue": 0.0, "maxValue": 0.0}
+	for _, k := range []string{"coefficient", "minValue", "maxValue"} {
+		if v, ok := ciGet(pm, k); ok {
+			out[k] = v
+		}
+	}
+	return out
 }
 
 // weightSets lists a `weights` map (criterion or "c1,c2" union keys) as [{set:[ids], w:x}] so that
